@@ -63,8 +63,8 @@ CHECKS = {
             "-40..40 cents (step 5 / 1), velocity/channel bounds through five entry points, malformed names, copy independence.",
             "trusted: integer pitch model, math.pow for the Hz expectation", "4 C10"),
     "C11": ("Note.transpose and container/bar/track transposition driven and compared entry by entry with deep snapshots and an integer pitch model",
-            "Exploration: names (<= 3 accidentals) x octaves {0,1,4,8} / 0..9 x shorthands of size 0..11 x up/down with the "
-            "restore identity; 1 600 / 8 000 random tracks (some with containers built from other containers) x 1-5 transposition / augment / diminish steps at track, bar or container "
+            "Exploration: names (<= 6 / <= 9 accidentals for the pitch, letter and restore-pitch clauses; <= 3 for the exact-name "
+            "restore identity) x octaves {0,1,4,8} / 0..9 x shorthands of size 0..11 x up/down; 1 600 / 8 000 random tracks (some with containers built from other containers) x 1-5 transposition / augment / diminish steps at track, bar or container "
             "level (accidental growth bounded so the documented +-6 re-spelling cannot intervene); octave changes around 0.",
             "trusted: integer pitch model; snapshots taken through public attributes", "4 C11"),
     "C12": ("recorded operation histories checked offline against a pitch-set model; OLD-guarded sortedness contract (M-sorted) on the add/remove family",
